@@ -17,10 +17,14 @@ Definition has_peg_request (b : list tx) : bool := existsb is_peg_request b.
 
 (* TransactionBatch.Validate(height) on a stored/decoded entry: the data part is height
    independent; the signature part accepts RCD-e only strictly above the activation *)
+(* amounts are uint64 in the Go structures: a decoded batch never carries a negative one *)
+Definition tx_amounts_okb (t : tx) : bool :=
+  (0 <=? tx_amt t) && forallb (fun tr => 0 <=? tr_amt tr) (tx_transfers t).
 Definition entry_valid_at (c : cfg) (e : entry) (h : Z) : option (list tx) :=
   match e_batch e with
   | None => None
-  | Some b => if e_rcde e && negb (c_Fat2RCDEActivation c <? h) then None else Some b
+  | Some b => if e_rcde e && negb (c_Fat2RCDEActivation c <? h) then None
+              else if forallb tx_amounts_okb b then Some b else None
   end.
 (* ValidatePegTx: from 2.0 on a batch with a conversion into PEG is invalid *)
 Definition has_peg_conversion (b : list tx) : bool := existsb (fun t => tx_conv t =? PTickerPEG) b.
@@ -113,7 +117,7 @@ Fixpoint record_txs (h : Z) (hs : hash) (rates avgs : gmap ticker Z) (idx : Z) (
         | None => Fail E_CONVERT
         | Some out =>
           let s4 := set_to_amount s3 hs idx out in
-          let? s5 := add_to_balance s4 (tx_addr t) (tx_conv t) out in
+          let? s5 := add_to_balance s4 (tx_addr t) (tx_conv t) (wrap64 out) in   (* uint64(outputAmount) *)
           record_txs h hs rates avgs (idx + 1) rest s5
         end
       else
@@ -161,7 +165,7 @@ Definition pay_request (h : Z) (rates : gmap ticker Z) (reqs : list peg_req) (s 
                      (rate_of rates (tx_type t)) (rate_of rates (tx_conv t)) in
     let s1 := set_peg_request_amounts s (fst (fst p)) (snd (fst p)) yield [(tx_addr t, rf)] in
     let? s2 := add_to_balance s1 (tx_addr t) (tx_conv t) yield in
-    add_to_balance s2 (tx_addr t) (tx_type t) rf
+    add_to_balance s2 (tx_addr t) (tx_type t) (wrap64 rf)                       (* uint64(refundAmt) *)
   end.
 
 Definition has_dup_txid (l : list txid) : bool :=
@@ -280,7 +284,7 @@ Record ftx := {
 }.
 Definition is_burn (f : ftx) : option (addr * Z) :=
   match f_ecoutputs f, f_inputs f, f_outputs f with
-  | [(ec, amt)], [(a, v)], [] => if (ec =? BurnRCD) && (amt =? 0) then Some (a, v) else None
+  | [(ec, amt)], [(a, v)], [] => if (ec =? BurnRCD) && (amt =? 0) && (0 <=? v) then Some (a, v) else None
   | _, _, _ => None
   end.
 Definition apply_factoid_block (h : Z) (s : db) (fs : list ftx) : res db :=
